@@ -121,7 +121,21 @@ func checkC13(c *km.Ctx) {
 					return false
 				}
 				cl, idx := callRes(f.X)
-				if cl == nil || idx != 0 || km.CalleeFull(cl.Common()) != "regexp.MatchString" || !isElemOfField(cl.Common().Args[0], "AllowedRedirectURLRE") {
+				if cl == nil || idx != 0 {
+					return false
+				}
+				switch km.CalleeFull(cl.Common()) {
+				case "regexp.MatchString":
+					if !isElemOfField(cl.Common().Args[0], "AllowedRedirectURLRE") {
+						return false
+					}
+				case "(*regexp.Regexp).MatchString":
+					// the pattern compiled first (possibly through a helper that remembers compilations)
+					pat, ok := compiledPattern(c, cl.Common().Args[0], 0)
+					if !ok || !isElemOfField(pat, "AllowedRedirectURLRE") {
+						return false
+					}
+				default:
 					return false
 				}
 				return resolve(cl.Common().Args[1]) == ssa.Value(km.ParamAt(vf, 1))
